@@ -101,6 +101,20 @@ func (obj *Chmm) ImportConfig(config ConfigDistribution, t ScalarType) error {
   if r, err := newConstrainedHmm(hmm.Pi, hmm.Tr, hmm.StateMap, hmm.Edist, constraints, true); err != nil {
     return err
   } else {
+    // the rebuilt model starts without restrictions: take the start and
+    // final states over from the configuration
+    startStates, ok := config.GetNamedParametersAsInts("StartStates"); if !ok {
+      return fmt.Errorf("invalid config file")
+    }
+    finalStates, ok := config.GetNamedParametersAsInts("FinalStates"); if !ok {
+      return fmt.Errorf("invalid config file")
+    }
+    if err := r.SetStartStates(startStates); err != nil {
+      return err
+    }
+    if err := r.SetFinalStates(finalStates); err != nil {
+      return err
+    }
     *obj = *r
   }
   return nil
